@@ -2,16 +2,34 @@
    inherits from the first accepting region.  All theorems are over ℝ and hold for EVERY loudspeaker position
    matrix / list and every direction (not only the nominal layouts).
 
-   PARTIAL: `C05_partial` is the conjunction of the region-level and wrapper-level claims below.  The full property
-   additionally says that the composed panner never answers "no result", that one side never gets less power than
-   the other, that layers are separated and that the composed panner is mirror-symmetric.  Those depend on Qhull's
-   facets (extracted as a table, not re-derived) covering the sphere for every admissible layout and are NOT proved
-   here; they are watched by the search in harness/c05.py.
+   PARTIAL: `C05_partial` is the conjunction of the region-level and wrapper-level claims below.
+
+   TOTALITY ("never no result") is proved for the ten nominal BS.2051 layouts at the level of the model over ℝ
+   (`panner_total_layouts`, `pspHandle_total_layouts`), in three stages (Proofs/C05Cover*.lean):
+     1. `Cover.cover_of_cells` — pure geometry: a closed, locally strictly convex polyhedral surface around the origin
+        (cells with outward normals summing to zero and spanning ℝ³, every edge shared with a cell that has the opposite
+        vertex strictly inside) covers every direction by the vertex cones of its cells;
+     2. `cover_tables_ok` (decide +kernel on `Gen/C05_Cover.lean`, regenerated from the real configured panner on every
+        run) + `Cover.cover_of_cert` ⇒ `cover_layouts`: every direction is a non-negative combination of three
+        independent vertices of one region of the regenerated table (exact binary64 coordinates);
+     3. `Cover.panner_total_of_cert`: Triplet and VirtualNgon regions accept on their cones; QuadRegions accept on the
+        cone of their corners (`quad_accepts_layouts`: sign certificate `quad_tables_ok` decided by the kernel +
+        `Cover.quad_accepts`), with the pan values chosen by the closed form `GainCalc.quadRoot` that models `np.roots`
+        and the code's scan (the order of LAPACK's eigenvalues is an assumption of that model, checked by C01's
+        correspondence, not proved).  `panner_total_layouts_partial` is the same statement for ANY root selection `sel`
+        under the hypothesis `Cover.QuadAcceptsOnCone sel`.
+   Still NOT proved: totality on real (non-nominal) loudspeaker positions, that one side never gets less power than the
+   other, that layers are separated, that the composed panner is mirror-symmetric, and everything about rounding (the
+   theorems are over ℝ; Qhull's facets are extracted as a table, not re-derived).  Those are watched by the search in
+   harness/c05.py.
 
    Over ℝ, `x / 0 = 0`, whereas numpy produces NaN: the theorems that need a non-zero vector say so
    (`sumsq _ ≠ 0`); for an invertible `P` and `p ≠ 0` the un-normalised gains are never the zero vector. -/
 import Earverif.Proofs.PointSourceReal
+import Earverif.Proofs.C05CoverTotal
+import Earverif.Proofs.C05CoverQuadCert
 import Earverif.Gen.C05_Tables
+import Earverif.Gen.C05_Cover
 
 namespace Earverif.PointSource
 
@@ -568,7 +586,107 @@ theorem tables_wellFormed : Earverif.Gen.C05.layouts.all RawLayout.wellFormed = 
 theorem tables_ten : Earverif.Gen.C05.layouts.map (·.name) =
     ["0+2+0", "0+5+0", "2+5+0", "4+5+0", "4+5+1", "3+7+0", "4+9+0", "9+10+3", "0+7+0", "4+7+0"] := by decide +kernel
 
+/-! ### totality: the region cones cover the sphere (Stages 1-3; proofs in Proofs/C05Cover*.lean)
+
+    `Gen/C05_Cover.lean` is regenerated on every run from the real configured panner (harness/c05_cover.py): a closed
+    polyhedral surface made of the regions' vertex triples / coplanar quadruples with the neighbour across every edge.
+    The kernel re-decides every side condition of the covering theorem `Cover.cover_of_cells` on it. -/
+
+open Cover in
+/-- Table obligation: for each of the ten nominal layouts the regenerated certificate passes `Cover.coverCertOk`
+    against the regenerated region table (exact integer arithmetic on the binary64 coordinates). -/
+theorem cover_tables_ok :
+    coverTablesOk Earverif.Gen.C05Cover.scaleExp Earverif.Gen.C05.layouts Earverif.Gen.C05Cover.covers = true := by
+  decide +kernel
+
+open Cover in
+/-- **Sphere coverage of the ten nominal layouts.**  Every non-zero direction is a non-negative combination of three
+    linearly independent vertices (loudspeaker positions, virtual extra loudspeakers or the virtual top/bottom
+    centre; exact binary64 coordinates) of ONE region of the configured panner. -/
+theorem cover_layouts (l : RawLayout) (hl : l ∈ Earverif.Gen.C05.layouts) (p : Vec3 ℝ) (hp : p ≠ (0, 0, 0)) :
+    ∃ r ∈ l.regions, ∃ a ∈ verts r, ∃ b ∈ verts r, ∃ c ∈ verts r,
+      det3 ((p3 a : Vec3 ℝ), p3 b, p3 c) ≠ 0 ∧ InCone3 (p3 a) (p3 b) (p3 c) p := by
+  obtain ⟨cert, _, c, _, r, hr, _, hcone⟩ := cover_of_tables _ _ _ cover_tables_ok l hl p hp
+  refine ⟨r, List.mem_of_getElem? hr, ?_⟩
+  have one : ∀ i1 i2 i3, RegionCone3 r i1 i2 i3 p → ∃ a ∈ verts r, ∃ b ∈ verts r, ∃ c ∈ verts r,
+      det3 ((p3 a : Vec3 ℝ), p3 b, p3 c) ≠ 0 ∧ InCone3 (p3 a) (p3 b) (p3 c) p := by
+    rintro i1 i2 i3 ⟨a, b, d, ha, hb, hd, hdet, hin⟩
+    exact ⟨a, List.mem_of_getElem? ha, b, List.mem_of_getElem? hb, d, List.mem_of_getElem? hd, hdet, hin⟩
+  split at hcone
+  · exact one _ _ _ hcone
+  · exact hcone.elim (one _ _ _) (one _ _ _)
+  · exact hcone.elim
+
+open Cover in
+/-- **Totality of the modelled panner on the ten nominal layouts, PARTIAL.**  Missing: `QuadAcceptsOnCone sel` — that a
+    QuadRegion accepts every direction in the cone of its four corners when its two pan values are chosen by `sel`
+    from the coefficients of the two quadratics (for `np.roots` + the code's scan: `GainCalc.quadRoot`).  Proved:
+    the cones cover the sphere (`cover_layouts`), Triplet and VirtualNgon regions accept on their cones, the first
+    accepting region / downmix / stereo wrappers pass a result through. -/
+theorem panner_total_layouts_partial (sel : ℝ × ℝ × ℝ → Option ℝ)
+    (hq : ∀ l ∈ Earverif.Gen.C05.layouts, QuadAcceptsOnCone sel l) (l : RawLayout)
+    (hl : l ∈ Earverif.Gen.C05.layouts) (p : Vec3 ℝ) (hp : p ≠ (0, 0, 0)) : handleSel sel l p ≠ none := by
+  obtain ⟨cert, _, hok⟩ := cert_of_tables _ _ _ cover_tables_ok l hl
+  have hwf : l.wellFormed = true := by
+    have := tables_wellFormed
+    rw [List.all_eq_true] at this
+    exact this l hl
+  exact panner_total_of_cert sel _ l cert hwf hok (hq l hl) p hp
+
+open Cover in
+/-- Table obligation: every QuadRegion of the ten regenerated tables passes the sign check `Cover.quadRegionOk`
+    (strictly convex corner position, no sign change of either pan quadratic on [−1e-10, 0] and [1, 1+1e-10] at any
+    corner, all corners in one open half-space). -/
+theorem quad_tables_ok : quadTablesOk Earverif.Gen.C05Cover.scaleExp Earverif.Gen.C05.layouts = true := by
+  decide +kernel
+
+open Cover in
+/-- **The quad step, proved for the ten tables** with the closed-form root selection `GainCalc.quadRoot` (the
+    transliteration of `np.roots` + the scan in `QuadRegion.pan_axis`, Model/GainCalcConcrete.lean). -/
+theorem quad_accepts_layouts (l : RawLayout) (hl : l ∈ Earverif.Gen.C05.layouts) :
+    QuadAcceptsOnCone Earverif.GainCalc.quadRoot l := by
+  have h := quad_tables_ok
+  unfold quadTablesOk at h
+  rw [List.all_eq_true] at h
+  exact quadAccepts_of_check _ l (h l hl)
+
+open Cover in
+/-- **C05 totality on the ten nominal BS.2051 layouts (model level).**  For every non-zero direction the modelled panner
+    `configure(layout).handle` — regenerated region table, first accepting region, downmix, stereo wrapper, quad pan
+    values by the closed form `GainCalc.quadRoot` — returns a result, never "no result". -/
+theorem panner_total_layouts (l : RawLayout) (hl : l ∈ Earverif.Gen.C05.layouts) (p : Vec3 ℝ) (hp : p ≠ (0, 0, 0)) :
+    handleSel Earverif.GainCalc.quadRoot l p ≠ none :=
+  panner_total_layouts_partial _ quad_accepts_layouts l hl p hp
+
+open Cover in
+/-- `handleSel quadRoot` is C01's `pspHandle` (same function, stated here so that C01/C13 can use the theorem above) -/
+theorem handleSel_eq_pspHandle (l : RawLayout) (p : Vec3 ℝ) :
+    handleSel Earverif.GainCalc.quadRoot l p = Earverif.GainCalc.pspHandle l p := by
+  unfold handleSel Earverif.GainCalc.pspHandle
+  cases l.regions.mapM (RawRegion.toRegion (α := ℝ)) with
+  | none => rfl
+  | some regions =>
+    simp only
+    congr 1
+    funext i
+    unfold rootsOf
+    cases regions[i]? with
+    | none => rfl
+    | some r => cases r <;> rfl
+
+/-- the same with the name C01 uses -/
+theorem pspHandle_total_layouts (l : RawLayout) (hl : l ∈ Earverif.Gen.C05.layouts) (p : Vec3 ℝ) (hp : p ≠ (0, 0, 0)) :
+    Earverif.GainCalc.pspHandle l p ≠ none := by
+  rw [← handleSel_eq_pspHandle]; exact panner_total_layouts l hl p hp
+
 /-! ### non-vacuity -/
+
+/-- the hypotheses of the covering / quad theorems are met by the regenerated tables themselves (`cover_tables_ok`,
+    `quad_tables_ok`); a concrete direction: straight up is covered on 0+5+0 -/
+example : ∃ l ∈ Earverif.Gen.C05.layouts, l.name = "0+5+0" ∧
+    Cover.handleSel Earverif.GainCalc.quadRoot l (0, 0, 1) ≠ none := by
+  refine ⟨Earverif.Gen.C05.L1, by simp [Earverif.Gen.C05.layouts], rfl, ?_⟩
+  exact panner_total_layouts _ (by simp [Earverif.Gen.C05.layouts]) _ (by norm_num)
 
 /-- the standard basis is an invertible triplet; the diagonal direction gets equal gains -/
 example : det3 (((1 : ℝ), 0, 0), (0, 1, 0), (0, 0, 1)) ≠ 0 := by norm_num [det3]
